@@ -96,6 +96,12 @@ def run(chk, prog):
                 maps = [x for x in f.calls if re.search(r"Option::<T>::map$", x.path or "") and op_base(x.args[0]) is not None and
                         any(k == "call" and info is c for k, info in f.trace(op_base(x.args[0])))]
                 for mp in maps:
+                    if mp.term.get("inlined") and mp.dest:
+                        # the map closure was rewritten into control flow inside process_request: Some(<rule>.target) on the hit arm
+                        for (b, i, rv) in f.defs.get(mp.dest[0], []):
+                            if i != "term" and rv["k"] == "agg" and rv.get("variant") == "Some" and op_base(rv["ops"][0]) is not None:
+                                if "f:target" in str(f.trace(op_base(rv["ops"][0]), through_calls=[r"clone::Clone::clone$"])):
+                                    tgt_ok = True
                     for n in et.walk(et.build(f, mp.args[1])):
                         if n[0] == "closure":
                             mc = prog.fns.get(f.crate + "::" + n[1])
@@ -147,6 +153,10 @@ def run(chk, prog):
                         if p and p[0] in derived:
                             derived.add(st["lhs"][0])
                             changed = True
+    if sel is not None and str(sel.term.get("inlined") or "").startswith("combinator:Option::map") and sel.args and op_base(sel.args[0]) is not None:
+        # `search.map(|r| r.target)` rewritten into control flow: the mapped result is None exactly when the search result is, and the
+        # switch that stands for the map is then the test of "no rule matched"
+        derived.add(op_base(sel.args[0]))
     guards = []
     for o in option_tests(f, derived):
         guards.append(("selected(%s)" % "/".join(str(x) for x in o["place"][1:]) if len(o["place"]) > 1 else "selected", o["pos"][0], o["pos"][1], o["neg"][1]))
